@@ -199,6 +199,12 @@ func sprinkle(t *rapid.T, s string) string {
 }
 
 func drawWindow(t *rapid.T, n, patlen, at int) (begin, length int) {
+	// one window in ten comes from the boundary values of the arguments
+	// themselves (window_test.go): huge, negative, exactly at the end, ...
+	if rapid.IntRange(0, 9).Draw(t, "edge_window") == 0 {
+		begin, length, _ = drawEdgeWindow(t, n, patlen, at)
+		return
+	}
 	switch rapid.IntRange(0, 7).Draw(t, "begin_kind") {
 	case 0, 1, 2, 3:
 		begin = 0
